@@ -1,4 +1,5 @@
 """Contracts of the file-selection and loading helpers (C09, C10, C12)."""
+import os
 import z3
 from pyvc.contract import Contract, LoopSpec
 from pyvc.values import (V, Int, Str, Bool, SeqV, NONE, ABSENT, TRUE, FALSE, truthy, clsof, keys_of,
@@ -254,6 +255,7 @@ def register_cache(reg, stubs, world):
 
     # ------------------------------------------------------------------ _is_directory_updated (C10)
     from specs.external import fs_isdir, fs_listdir, pjoin
+    from specs.wf import fp
 
     def idu_entry(eng, st, cache, path):
         cm = V.m(eng.val(st, cache))
@@ -276,7 +278,8 @@ def register_cache(reg, stubs, world):
                 ('entries-are-dict-objects-with-a-numeric-non-negative-mtime', qforall([k], z3.Implies(e != ABSENT, z3.And(
                     V.is_obj(e), clsof(V.ref(e)) == eng.cid('dict'), V.is_dict(eng.val(st, e)), V.ref(e) != V.ref(cache),
                     z3.Or(mt == ABSENT, z3.And(z3.Or(V.is_int(mt), V.is_float(mt)), num(mt) >= 0)))), patterns=[e])),
-                ('modification-times-are-non-negative', True)]
+                ('the-stamps-are-not-part-of-a-check-tree-or-rule-store', z3.And(
+                    z3.Not(fp(V.ref(cache))), qforall([k], z3.Implies(e != ABSENT, z3.Not(fp(V.ref(e)))), patterns=[e])))]
 
     def idu_axioms(cx):
         p = z3.String('idu!p')
@@ -310,9 +313,24 @@ def register_cache(reg, stubs, world):
                     e1 != ABSENT, mt1 != ABSENT, num(mt1) > old, num(mt1) >= fs_mtime(P),
                     qforall([j], z3.Implies(inr, num(mt1) >= fm(j)))))),
                 ('an-unchanged-directory-keeps-its-stamp', z3.Implies(z3.And(out.value == FALSE, e0 != ABSENT),
-                                                                    z3.And(e1 == e0, em1 == em0)))]
+                                                                    z3.And(e1 == e0, em1 == em0))),
+                ('the-entry-for-the-directory-is-the-old-one-or-a-fresh-dict', z3.And(
+                    e1 != ABSENT, V.is_obj(e1), clsof(V.ref(e1)) == eng.cid('dict'), V.is_dict(eng.val(s1, e1)),
+                    z3.Or(z3.And(e0 != ABSENT, e1 == e0), z3.And(V.ref(e1) >= st.ap, V.ref(e1) < s1.ap)),
+                    z3.Or(mt1 == ABSENT, z3.And(z3.Or(V.is_int(mt1), V.is_float(mt1)), num(mt1) >= 0)))),
+                ('the-other-entries-stay', V.m(eng.val(s1, cache)) == z3.Store(V.m(eng.val(st, cache)), P, e1))]
+
+    def idu_frame(cx, f, old, new):
+        # of the objects that existed before, only the stamp dict and its entry for this directory are written
+        eng, st = cx.eng, cx.st0
+        cache = cx['cache']
+        e0 = z3.Select(V.m(eng.val(st, cache)), V.s(cx['path']))
+        r = z3.Int('iduf!r')
+        return [qforall([r], z3.Implies(z3.And(r < st.ap, r != V.ref(cache), z3.Or(e0 == ABSENT, r != V.ref(e0))),
+                                        z3.Select(new, r) == z3.Select(old, r)), patterns=[z3.Select(new, r)])]
     reg.add(Contract('policy:Enforcer._is_directory_updated', pre=idu_pre, post=idu_post, axioms=idu_axioms,
-                     raises=('ValueError',), modifies=('$val',), frame=lambda cx, f, o, n: [], allocates=True, props=('C10',),
+                     raises=('ValueError',), modifies=('$val',), frame=idu_frame, allocates=True, props=('C10',),
+                     preserves=('wf_tree', 'tree_height', 'pr', 'wf_eval'),
                      doc='a policy directory counts as updated exactly when its own modification time or that of one of '
                          'its entries is newer than the stamp kept for it (a deletion or creation changes only the '
                          'directory\'s own time, a rewrite only the file\'s); the stamp kept afterwards dominates all of them'))
@@ -524,7 +542,7 @@ def register_chain2(reg, stubs, world):
         r = z3.Int('rl!r')
         return [qforall([r], z3.Implies(r < cx.st0.ap, z3.Select(new, r) == z3.Select(old, r)), patterns=[z3.Select(new, r)])]
     reg.add(Contract('policy:Rules.load', pre=lambda cx: [V.is_str(cx['data'])], post=rl_post, raises=('ValueError',),
-                     allocates=True, trusted=True, modifies=('rules', 'rule', 'kind', 'match', '$val', 'default_rule'),
+                     allocates=True, trusted=os.environ.get('VERIF_WIP') != '1', modifies=('rules', 'rule', 'kind', 'match', '$val', 'default_rule'),
                      frame=fresh_only, preserves=('wf_tree', 'wf_eval', 'pr', 'tree_height'),
                      assumptions=('ASSUMED (parse_file_contents + parse_rule, see those contracts): Rules.load returns a fresh Rules '
                                   'object holding one fresh well-formed check per name of the mapping the text denotes, with the '
